@@ -382,3 +382,187 @@ def c_to_s_prims(globs):
 def targets_c13():
     return [Target('wave_sim', 'WaveSim.c_to_s', [c_to_s_config()], prims=c_to_s_prims, instantiate='fallback',
                    note='every port row of s gets the capture of its own output-slot waveform; wave_capture_cpu by contract')]
+
+
+# ------------------------------------------------------------------------------------------------- WaveSim.s_to_c (C03 / C04 / C06)
+import ast as _ast  # noqa: E402
+
+R = z3.RealSort()
+SFN = z3.Function('S_in', I, I, I, R)          # s[row, s_loc, lane]
+INVPC = z3.Function('INVPC', I, I)             # ghost inverse of pippi_c_locs (the input slots have distinct locations)
+
+
+def rv(x):
+    """python / numpy float -> exact z3 real"""
+    from fractions import Fraction
+    f = Fraction(float(x))
+    return z3.RealVal(f'{f.numerator}/{f.denominator}')
+
+
+class VArr(Model):
+    """numpy array (any rank, here 2 or 3) given by an element function over index terms; kind in real / bool / int"""
+
+    def __init__(self, rank, elem, kind):
+        self.rank, self.elem, self.kind = rank, elem, kind
+
+    def as_int(self):
+        if self.kind == 'bool':
+            return VArr(self.rank, lambda *ix: z3.If(self.elem(*ix), 1, 0), 'int')
+        return self
+
+    def m_getitem(self, ex, st, idx, node):
+        from pyvc.values import _conc_int
+        if isinstance(idx, tuple) and len(idx) == 2 and idx[0] == slice(None, None, None) and isinstance(idx[1], IntArr) and self.rank == 3:
+            arr = st.heap[idx[1].name]
+            return VArr(3, lambda r, j, l: self.elem(r, z3.Select(arr, j), l), self.kind)
+        k = _conc_int(idx)
+        if k is not None and not isinstance(idx, tuple) and self.rank == 3:
+            return VArr(2, lambda j, l: self.elem(z3.IntVal(k), j, l), self.kind)
+        raise NotInSubset(f'array index {idx!r}')
+
+    def m_compare(self, ex, st, op, a, b, node):
+        other = b if a is self else a
+        if isinstance(other, Model) or op not in (_ast.NotEq, _ast.Eq):
+            raise NotInSubset('array comparison')
+        o = rv(other) if self.kind == 'real' else z3.IntVal(int(other))
+        me = self.as_int() if self.kind == 'bool' else self
+        f = (lambda *ix: me.elem(*ix) != o) if op is _ast.NotEq else (lambda *ix: me.elem(*ix) == o)
+        return VArr(self.rank, f, 'bool')
+
+    def m_binop(self, ex, st, op, a, b, node):
+        x, y = a, b
+        if op not in (_ast.Add, _ast.Mult):
+            raise NotInSubset('array arithmetic other than + and *')
+
+        def lift(v):
+            if isinstance(v, VArr):
+                v = v.as_int()
+                if v.kind != 'int':
+                    raise NotInSubset('arithmetic on a real array')
+                return v.elem
+            if isinstance(v, Model):
+                raise NotInSubset('array arithmetic with a model')
+            return lambda *ix: to_int(v)
+        fx, fy = lift(x), lift(y)
+        if op is _ast.Add:
+            return VArr(self.rank, lambda *ix: fx(*ix) + fy(*ix), 'int')
+        return VArr(self.rank, lambda *ix: fx(*ix) * fy(*ix), 'int')
+
+
+class CMem(Model):
+    """self.c : heap['c'][loc][lane] (reals); only scatter assignments  c[index array] = values  are modelled"""
+
+    def m_setitem(self, ex, st, idx, val, node):
+        g = ex.g
+        if isinstance(idx, IntArr):
+            arr = st.heap[idx.name]
+            off = z3.IntVal(0)
+        elif isinstance(idx, GatherArr) and getattr(idx, 'offset_of', None) is not None:
+            arr, off = idx.offset_of
+        else:
+            raise NotInSubset('scatter index other than pippi_c_locs (+ constant)')
+        if not z3.eq(arr, g['PC']):
+            raise NotInSubset('scatter through another index array')
+        if isinstance(val, VArr):
+            if val.rank != 2 or val.kind != 'real':
+                raise NotInSubset('scatter of a non-real / non-matrix value')
+            vf = val.elem
+        elif isinstance(val, Model):
+            raise NotInSubset('scatter value')
+        else:
+            vf = lambda j, l: rv(val)
+        C0 = st.heap['c']
+        C1 = z3.Array(f'c!{next(ex.fresh)}', I, z3.ArraySort(I, R))
+        loc, l = z3.Ints('loc l')
+        src = INVPC(loc - off)
+        inimg = z3.And(0 <= src, src < g['n'], g['PC'][src] == loc - off)
+        st.assume(SBool(z3.ForAll([loc, l], C1[loc][l] == z3.If(z3.And(inimg, 0 <= l, l < g['sims']), vf(src, l), C0[loc][l]))))
+        ex.assumed.add('numpy scatter c[idx] = v with pairwise distinct idx: c[idx[j], lane] = v[j, lane], everything else unchanged')
+        st.heap['c'] = C1
+
+
+def s_to_c_prims(globs):
+    np = globs['np']
+
+    def choose(ex, st, args, kwargs, node):
+        cond, choices = args
+        if not isinstance(cond, VArr) or cond.rank != 2 or not isinstance(choices, (list, tuple)):
+            raise NotInSubset('np.choose shape')
+        cond = cond.as_int()
+        j, l = z3.Ints('j l')
+        ex.prove(st, 'no-exception:np.choose selector in range', z3.ForAll([j, l], z3.And(cond.elem(j, l) >= 0, cond.elem(j, l) < len(choices))), node)
+        fs = []
+        for c in choices:
+            if isinstance(c, VArr):
+                if c.kind != 'real' or c.rank != 2:
+                    raise NotInSubset('np.choose choice')
+                fs.append(c.elem)
+            elif isinstance(c, Model):
+                raise NotInSubset('np.choose choice')
+            else:
+                fs.append(lambda j_, l_, c=c: rv(c))
+
+        def elem(j_, l_):
+            r = fs[-1](j_, l_)
+            for k in range(len(fs) - 2, -1, -1):
+                r = z3.If(cond.elem(j_, l_) == k, fs[k](j_, l_), r)
+            return r
+        ex.assumed.add('np.choose(selector, choices) element-wise with broadcasting of scalar choices')
+        return VArr(2, elem, 'real')
+    return {np.choose: choose}
+
+
+class PCArr(LocArr):
+    def m_binop(self, ex, st, op, a, b, node):
+        other = b if a is self else a
+        if op is _ast.Add and not isinstance(other, Model):
+            arr, k = st.heap[self.name], to_int(other)
+            g_ = GatherArr(self.length, lambda j: z3.Select(arr, j) + k)
+            g_.offset_of = (arr, k)
+            return g_
+        raise NotInSubset('array arithmetic')
+
+
+def s_to_c_config():
+    def setup(ex):
+        st = State()
+        n, sims = ex.fv('n_pippi', 'int'), ex.fv('sims', 'int')
+        st.assume(SBool(z3.And(n.e >= 0, sims.e >= 0)))
+        IntArr.new(ex, st, 'pippi_s_locs', length=n)
+        IntArr.new(ex, st, 'pippi_c_locs', length=n)
+        ps, pc = LocArr('pippi_s_locs', n, False), PCArr('pippi_c_locs', n, False)
+        PC = st.heap['pippi_c_locs']
+        j, j2 = z3.Ints('j j2')
+        # requires (memory map, C08): the input slots are distinct regions of capacity >= 3 -> locations at least 3 apart; ghost inverse
+        st.assume(SBool(z3.ForAll([j], z3.Implies(z3.And(0 <= j, j < n.e), z3.And(PC[j] >= 0, INVPC(PC[j]) == j)))))
+        st.assume(SBool(z3.ForAll([j, j2], z3.Implies(z3.And(0 <= j, j < n.e, 0 <= j2, j2 < n.e, j != j2), z3.Or(PC[j] + 3 <= PC[j2], PC[j2] + 3 <= PC[j])))))
+        st.heap['c'] = z3.Array('c0', I, z3.ArraySort(I, R))
+        selfo = SObj.new(st, 'self', s=VArr(3, lambda r, sl, l: SFN(r, sl, l), 'real'), c=CMem(), pippi_s_locs=ps, pippi_c_locs=pc)
+        ex.readonly.update({('self', f) for f in ('s', 'c', 'pippi_s_locs', 'pippi_c_locs')})
+        st.env.update(self=selfo)
+        ex.g = dict(n=n.e, sims=sims.e, PC=PC, PS=st.heap['pippi_s_locs'], c0=st.heap['c'])
+        return st
+
+    def post(ex, st):
+        g = ex.g
+        C = st.heap['c']
+        TMAX, TMIN = rv(ex.globs['TMAX']), rv(ex.globs['TMIN'])
+        j, l, loc = z3.Ints('j l loc')
+        ini = SFN(0, g['PS'][j], l) != 0
+        fin = SFN(2, g['PS'][j], l) != 0
+        t = SFN(1, g['PS'][j], l)
+        w0 = z3.If(ini, TMIN, z3.If(fin, t, TMAX))
+        w1 = z3.If(z3.And(ini, z3.Not(fin)), t, TMAX)
+        rng = z3.And(0 <= j, j < g['n'], 0 <= l, l < g['sims'])
+        yield 'every input slot holds the waveform of its assignment: constant 0 -> [], rise -> [t], fall -> [TMIN, t], constant 1 -> [TMIN], terminated by TMAX', \
+            SBool(z3.ForAll([j, l], z3.Implies(rng, z3.And(C[g['PC'][j]][l] == w0, C[g['PC'][j] + 1][l] == w1, C[g['PC'][j] + 2][l] == TMAX))))
+        touched = z3.Or(*[z3.And(0 <= INVPC(loc - k), INVPC(loc - k) < g['n'], g['PC'][INVPC(loc - k)] == loc - k) for k in range(3)])
+        yield 'frame: nothing outside the first three entries of the input slots (and the simulated lanes) is written', \
+            SBool(z3.ForAll([loc, l], z3.Implies(z3.Or(z3.Not(touched), l < 0, l >= g['sims']), C[loc][l] == g['c0'][loc][l])))
+        ex.prove(st, 'mustfail:c is unchanged', SBool(C == g['c0']), ex.fn, expect='refuted')
+    return Config('any interface, any assignments', {'post': post}, setup, None)
+
+
+def targets_s_to_c():
+    return [Target('wave_sim', 'WaveSim.s_to_c', [s_to_c_config()], prims=s_to_c_prims, instantiate='fallback',
+                   note='numpy gather / choose / scatter as element functions; waveform encoding of the (initial, time, final) assignment')]
